@@ -103,7 +103,8 @@ def r3_driver(ctx):
         table = {"mahf::state::State::populations_mut": Sym("populations"), "mahf::state::State::random_mut": Sym("rng"),
                  "mahf::state::common::Populations::current_mut": Vec("cur", borrowed=True), BC + "::constrain": constrain}
         it = install(Interp(fn.body, chain(mk_oracle(table), coll_oracle, std_oracle), [Sym("component"), Sym("problem"), Sym("state")], facts=F, inline=INL, max_visits=12))
-        it.init_state = {"heap": {"cur": tuple(c07.ind(i) for i in range(size))}, "next_vec": 0}
+        # members 0, 2 carry an objective value from an earlier evaluation, member 1 has none (freshly modified)
+        it.init_state = {"heap": {"cur": tuple(c07.ind(i) if i != 1 else Agg("adt", c07.IND, "Individual", [Sym("s:1"), NONE]) for i in range(size))}, "next_vec": 0}
         for p in it.run():
             if p.end != "return" or not (isinstance(p.ret, Agg) and p.ret.variant == "Ok"):
                 bad.append((size, "%s %s" % (p.end, p.ret)))
